@@ -47,3 +47,116 @@ theorem copyArr_full (n : Nat) (dst src : Bytes) (h : n ≤ src.length) : copyAr
 def setAt {α : Type} (l : List α) (i : Nat) (v : α) : R (List α) := if i < l.length then .ok (l.set i v) else .panic
 
 end Bmc.GoDec
+
+/-! ## Additions for the wider language of `tools/decgen` (signed narrow integers, shifts by a variable count,
+    package-level tables, strings built from runes, counting loops from any start, loops with fuel, external calls) -/
+namespace Bmc
+
+/-- outcome of a translated function that contains a loop the translator cannot bound structurally: the outcomes of
+    `R` plus `outOfFuel` (the loop was cut off by the fuel the translator chose). The equality theorem with the hand
+    model (`RF.lift (model …)`) shows it never occurs. -/
+inductive RF (α : Type) where
+  | ok (a : α)
+  | err
+  | panic
+  | overread
+  | outOfFuel
+  deriving Repr, DecidableEq
+
+namespace RF
+def lift : R α → RF α | .ok a => .ok a | .err => .err | .panic => .panic | .overread => .overread
+def map (f : α → β) : RF α → RF β
+  | .ok a => .ok (f a) | .err => .err | .panic => .panic | .overread => .overread | .outOfFuel => .outOfFuel
+instance : Monad RF where
+  pure := RF.ok
+  bind x f := match x with
+    | .ok a => f a | .err => .err | .panic => .panic | .overread => .overread | .outOfFuel => .outOfFuel
+instance : LawfulMonad RF := LawfulMonad.mk' RF
+  (id_map := fun x => by cases x <;> rfl)
+  (pure_bind := fun x f => rfl)
+  (bind_assoc := fun x f g => by cases x <;> rfl)
+@[simp] theorem bind_ok (a : α) (f : α → RF β) : (RF.ok a >>= f) = f a := rfl
+@[simp] theorem bind_err (f : α → RF β) : ((RF.err : RF α) >>= f) = RF.err := rfl
+@[simp] theorem bind_panic (f : α → RF β) : ((RF.panic : RF α) >>= f) = RF.panic := rfl
+@[simp] theorem bind_overread (f : α → RF β) : ((RF.overread : RF α) >>= f) = RF.overread := rfl
+@[simp] theorem bind_outOfFuel (f : α → RF β) : ((RF.outOfFuel : RF α) >>= f) = RF.outOfFuel := rfl
+@[simp] theorem pure_eq (a : α) : (pure a : RF α) = RF.ok a := rfl
+@[simp] theorem lift_ok (a : α) : lift (R.ok a) = RF.ok a := rfl
+@[simp] theorem lift_err : lift (R.err : R α) = RF.err := rfl
+@[simp] theorem lift_panic : lift (R.panic : R α) = RF.panic := rfl
+@[simp] theorem lift_overread : lift (R.overread : R α) = RF.overread := rfl
+theorem lift_bind (x : R α) (f : α → R β) : lift (x >>= f) = (lift x >>= fun a => lift (f a)) := by cases x <;> rfl
+theorem lift_map (g : α → β) (x : R α) : lift (x.map g) = (lift x).map g := by cases x <;> rfl
+theorem lift_ite (c : Prop) [Decidable c] (a b : R α) : lift (if c then a else b) = if c then lift a else lift b := by
+  split <;> rfl
+end RF
+end Bmc
+
+namespace Bmc.GoDec
+open Bmc
+
+/-- a Go loop that is not a counting loop, with FUEL: `step s` evaluates the condition on the loop state `s` and gives
+    `none` when it is false (the loop is left with `s`), otherwise runs body and post statement and gives the next
+    state. Running out of fuel is the distinguished outcome `RF.outOfFuel`. -/
+def loopM {σ : Type} : Nat → (σ → RF (Option σ)) → σ → RF σ
+  | 0, _, _ => RF.outOfFuel
+  | n + 1, step, s => do
+    match ← step s with
+    | none => pure s
+    | some s' => loopM n step s'
+
+/-- Go's `x << n` for an unsigned count `n` (as ℕ): counts at or above the width give 0 (Lean's `<<<` would reduce the
+    count modulo the width) -/
+def shl8 (a : UInt8) (n : Nat) : UInt8 := if n < 8 then a <<< UInt8.ofNat n else 0
+def shr8 (a : UInt8) (n : Nat) : UInt8 := if n < 8 then a >>> UInt8.ofNat n else 0
+def shl16 (a : UInt16) (n : Nat) : UInt16 := if n < 16 then a <<< UInt16.ofNat n else 0
+def shr16 (a : UInt16) (n : Nat) : UInt16 := if n < 16 then a >>> UInt16.ofNat n else 0
+def shl32 (a : UInt32) (n : Nat) : UInt32 := if n < 32 then a <<< UInt32.ofNat n else 0
+def shr32 (a : UInt32) (n : Nat) : UInt32 := if n < 32 then a >>> UInt32.ofNat n else 0
+
+/-- `arr[i]` on a package-level array / a local slice given as the list of its elements: beyond the length is a panic -/
+def listIdx {α : Type} (l : List α) (i : Nat) : R α := match l[i]? with | some a => .ok a | none => .panic
+
+/-- the integers `lo, lo+1, …, hi-1` (none when `hi ≤ lo`): the values of `i` in `for i := lo; i < hi; i++` -/
+def intRange (lo hi : Int) : List Int := (List.range (hi - lo).toNat).map (fun (k : Nat) => lo + (k : Int))
+
+/-- `int(math.Ceil(float64(a) / k))` for `k` a power of two: `float64(a)` is exact for |a| < 2^53, the division by a
+    power of two and `math.Ceil` are exact, so this is the ceiling of the rational quotient (stated for |a| < 2^53;
+    like the absence of wrap-around at 2^63, larger values are outside the translation) -/
+def floatCeilDiv (a : Int) (k : Nat) : Int := -((-a) / (k : Int))
+/-- `int(math.Floor(float64(a) / k))` for `k` a power of two: floor of the rational quotient (|a| < 2^53) -/
+def floatFloorDiv (a : Int) (k : Nat) : Int := a / (k : Int)
+
+/-- `utf8.AppendRune`: the UTF-8 encoding of one rune; surrogates and values outside 0…0x10FFFF encode U+FFFD -/
+def utf8Rune (r : Int) : Bytes :=
+  if 0 ≤ r ∧ r < 0x80 then [UInt8.ofNat r.toNat]
+  else if 0 ≤ r ∧ r < 0x800 then [UInt8.ofNat (0xC0 + r.toNat / 64), UInt8.ofNat (0x80 + r.toNat % 64)]
+  else if r < 0 ∨ r > 0x10FFFF ∨ (0xD800 ≤ r ∧ r ≤ 0xDFFF) then [0xEF, 0xBF, 0xBD]
+  else if r < 0x10000 then
+    [UInt8.ofNat (0xE0 + r.toNat / 4096), UInt8.ofNat (0x80 + r.toNat / 64 % 64), UInt8.ofNat (0x80 + r.toNat % 64)]
+  else [UInt8.ofNat (0xF0 + r.toNat / 262144), UInt8.ofNat (0x80 + r.toNat / 4096 % 64),
+        UInt8.ofNat (0x80 + r.toNat / 64 % 64), UInt8.ofNat (0x80 + r.toNat % 64)]
+
+/-- `string(runes)` for a `[]rune`: the bytes of the resulting Go string -/
+def stringOfRunes (rs : List Int32) : Bytes := rs.flatMap (fun r => utf8Rune r.toInt)
+
+/-- what `data` denotes after `cipher.NewCBCDecrypter(block, iv).CryptBlocks(data[lo:], data[lo:])`: the bytes from
+    `lo` to `len` are replaced by `dec iv (those bytes)`; `crypto/cipher` panics when the IV is not one block
+    (`NewCBCDecrypter`) or the input is not a whole number of blocks (`CryptBlocks`). `dec` (the keyed block cipher in
+    CBC mode) is a PARAMETER of the translated definition; only the first `len - lo` bytes of its result are used
+    (missing ones read as 0), so that the definition is total for any `dec`. -/
+def cryptBlocksInPlace (dec : Bytes → Bytes → Bytes) (blockSize : Nat) (iv : Bytes) (s : GoSlice) (lo : Nat) : R GoSlice :=
+  if iv.length ≠ blockSize then .panic
+  else if h : lo ≤ s.len then
+    if (s.len - lo) % blockSize ≠ 0 then .panic
+    else
+      let ct := (s.buf.take s.len).drop lo
+      let pt := dec iv ct
+      let new := (pt ++ List.replicate (s.len - lo) 0).take (s.len - lo)
+      .ok ⟨s.buf.take lo ++ new ++ s.buf.drop s.len, s.len, by
+        have := s.h
+        simp only [List.length_append, List.length_take, List.length_drop, List.length_replicate, new]
+        omega⟩
+  else .panic
+
+end Bmc.GoDec
